@@ -160,6 +160,95 @@ def r5(ctx, rep):
         rep.ok("ident-pass-through")
 
 
+MUTATORS = {"retain", "remove", "drain", "clear", "take", "extract_if", "pop"}
+
+
+def r6(ctx, rep):
+    rep.rule("C10.R6", "the candidate set of a lookup is not narrowed before the 0 / 1 / many decision", floor=3)
+    syn = ctx.syn
+    reviewed_narrowing = {
+        "prqlc::semantic::resolver::names::Resolver::resolve_ident_wildcard:res": "an exact match of the searched `<path>._self` ident replaces the fuzzy candidates (`if res.contains(&ident_self)`): same declaration, not a preference between relations",
+        "prqlc::semantic::resolver::names::Resolver::resolve_ident_fallback:decls": "the only reassignment is the retry `decls = lookup(&infer_ident)` after the parent module was inferred, under `if decls.is_empty()` (nothing is discarded)",
+    }
+    n = 0
+    for f in syn.fns_in_file("semantic/resolver/names.rs"):
+        if "body" not in f:
+            continue
+        lookups = {}
+        for x in walk(f["body"]):
+            if x.get("k") == "local" and x.get("init") is not None and ".lookup(" in show(x["init"], maxdepth=6):
+                lookups[show(x["pat"]).replace("mut ", "")] = x
+        for var, decl in lookups.items():
+            n += 1
+            key = f"{f['path']}:{var}"
+            muts = []
+            for x in walk(f["body"]):
+                if x.get("k") == "mcall" and x["m"] in MUTATORS and show(x["r"]) == var:
+                    muts.append((x["l"], f".{x['m']}()"))
+                if x.get("k") == "assign" and show(x["lhs"]) == var:
+                    muts.append((x["l"], f"= {show(x['rhs'], maxdepth=5)}"))
+            if not muts:
+                rep.ok("narrow:" + key)
+                continue
+            allowed = False
+            if key in reviewed_narrowing:
+                # the reviewed shapes: exactly one reassignment and no element-removing call
+                allowed = all(m.startswith("= ") for _, m in muts) and len(muts) == 1
+            rep.check(allowed, "narrow:" + key,
+                      f"the lookup result `{var}` is modified before the cardinality decision ({muts}): candidates are discarded, so a name that matches declarations of two relations "
+                      "resolves to the preferred one instead of being reported as ambiguous", detail=reviewed_narrowing.get(key), file=f["file"], line=muts[0][0], fn=f["path"])
+    rep.check(n >= 3, "lookup-sites", f"expected >= 3 lookup results in names.rs, found {n}")
+
+
+def r7(ctx, rep):
+    rep.rule("C10.R7", "unknown named arguments are checked on every path; parameter scopes are popped on every exit", floor=3)
+    syn = ctx.syn
+    g = syn.fn("Resolver::apply_args_to_closure", crate="prqlc")
+    stmts = g["body"]["s"]
+    idx = None
+    for j, st in enumerate(stmts):
+        if st.get("k") == "if" and st["c"].get("k") == "let" and "named_args" in show(st["c"]["e"]) and any(r.get("k") == "return" and show(r.get("e"), maxdepth=3).startswith("Err(") for r in walk(st["t"])):
+            idx = j
+    early = []
+    if idx is not None:
+        for st in stmts[:idx]:
+            for x in walk_no_closure(st):
+                if x.get("k") == "return" and not show(x.get("e"), maxdepth=3).startswith("Err("):
+                    early.append(x["l"])
+    rep.check(idx is not None and not early, "named-check-on-every-path",
+              f"apply_args_to_closure returns successfully at line(s) {early} before the unknown-named-argument test: on that path a misspelt or inapplicable named argument is silently dropped",
+              file=g["file"], line=early[0] if early else g["l"], fn=g["path"])
+    # fold_function / materialize_function: NS_PARAM frames are popped on every non-error exit after the push
+    for name, allowed_exit in (("Resolver::fold_function", "Ok(*expr_of_func(func, span))"), ("Resolver::materialize_function", None)):
+        f = syn.fn(name, crate="prqlc")
+        stmts = f["body"]["s"]
+        pi = [j for j, st in enumerate(stmts) if any(x.get("k") == "mcall" and x["m"] == "stack_push" and "NS_PARAM" in show(x, maxdepth=6) for x in walk_no_closure(st))]
+        if not pi:
+            rep.bad(f"scope:{f['name']}", "no stack_push(NS_PARAM, ..) found", file=f["file"], line=f["l"], fn=f["path"])
+            continue
+        rest = {"k": "block", "l": stmts[pi[0]]["l"], "s": stmts[pi[0] + 1:]}
+
+        def popped(x):
+            return x.get("k") == "mcall" and x["m"] == "stack_pop" and "NS_PARAM" in show(x, maxdepth=6)
+        out, sat, div = flow.exits(rest, popped, False)
+        bad = []
+        for line, ok in out:
+            if ok:
+                continue
+            # which return is it?
+            txt = None
+            for x in walk(f["body"]):
+                if x.get("k") == "return" and x["l"] == line:
+                    txt = show(x.get("e"), maxdepth=6)
+            if allowed_exit is not None and txt == allowed_exit:
+                continue  # reviewed: the partial-application exit (no input found that observes the leftover frame)
+            bad.append((line, txt))
+        if not div and not sat:
+            bad.append((f["el"], "end of function"))
+        rep.check(not bad, f"scope:{f['name']}", f"after stack_push(NS_PARAM, ..) the exit(s) {bad} leave the function without stack_pop(NS_PARAM): the callee's parameter names stay resolvable in "
+                  "the caller's scope, so a later bare name that is not in the frame resolves to a parameter instead of being an error", file=f["file"], line=bad[0][0] if bad else f["l"], fn=f["path"])
+
+
 def run(ctx, rep):
-    for r in (r1, r2, r3, r4, r5):
+    for r in (r1, r2, r3, r4, r5, r6, r7):
         rep.guard(r, ctx)
